@@ -39,7 +39,7 @@ var epochPool = []uint64{0, 1, 2, 10, 99, 1<<31 - 1}
 
 // BigEpochs: epochs beyond dpkg's INT_MAX that still fit the library's field, for struct-level comparisons (C01/C02)
 // and for the "accepted faithfully or refused" class of C03.
-var BigEpochs = []uint64{1 << 31, 1<<32 + 5, 1<<63 - 1}
+var BigEpochs = []uint64{1 << 31, 1<<32 + 5, 1<<63 - 1, 1 << 63, 1<<64 - 1}
 
 func digitRun(r *core.Rand) string {
 	switch r.Intn(10) {
